@@ -164,6 +164,19 @@ func runC05(c *core.Ctx) {
 			stageLifecycleRules(c, s, lifecycleOpts{only: "closing"})
 		}
 	}
+	// the images the stages deliver are the images of the user's function: the wrappers the constructors build apply
+	// it exactly once per element and hand its result on unchanged (shared with C07)
+	c.Doc("apply-term", 5, "wrapper Apply calls the wrapped function exactly once, arguments in order, results returned unchanged")
+	c.Doc("pure-never-fails", 1, "Pure wraps f as (f(a), nil)")
+	for _, ctor := range []string{"Lift", "Pure", "LiftF", "Try", "TryF"} {
+		fn := c.W.Func("pipe", ctor)
+		if fn == nil {
+			c.Undecided("apply-term", "pipe."+ctor, 0, "constructor not found")
+			continue
+		}
+		applyTerm(c, "pipe", "pipe."+ctor, constructedType(fn))
+	}
+	pureNeverFails(c, "pipe")
 }
 
 // elementPaths: iteration paths of goroutine g (from its loop head), split into element / closed paths.
